@@ -13,7 +13,7 @@ CONSTANTS
     XSlots = 3
     XWs = {FALSE}
     X2Keys = {"K_hash", "K_cert", "K_dns"}
-    X2Atoms = {"c", "COMMA", "SEMI", "Q", "ESC", "PC"}
+    X2Atoms = {"c", "COMMA", "SEMI", "Q", "ESC", "PC", "ESCBS"}
     CnAtoms = {}
     CnLen = 0
     NoiseSyms = {"K_hash", "EQ", "Q", "BS", "COMMA", "SEMI", "SP", "c1"}
